@@ -47,8 +47,10 @@ def getitem(a, b):
         if type(a) is str:
             return SymStr.mk([select([ord(c) for c in a], b)])
         if isinstance(a, (list, tuple, bytes, range)):
-            if all(type(i) in (int, bool, SymInt, SymBool) for i in a):
-                return select(list(a), b)
+            if all(type(i) in (int, bool, SymInt, SymBool) for i in a) or (
+                    all(type(i) is tuple for i in a) and len({len(i) for i in a}) == 1
+                    and all(type(c) in (int, bool, SymInt, SymBool) for i in a for c in i)):
+                return select(list(a), b)   # numbers, or equal-length tuples of numbers (coordinates): an if-then-else term
             n_ = len(a)
             if bool(sor(b >= n_, b < -n_)):
                 raise IndexError("list index out of range" if type(a) is list else "index out of range")
